@@ -82,6 +82,8 @@ def main():
         sys.exit(2)
     sys.stdout.flush()
     sys.stderr.flush()
+    if os.environ.get("VF_COVERAGE"):
+        sys.exit(rc)
     os._exit(rc)
 
 
